@@ -60,6 +60,31 @@ def validate_traces(run, obs_list, module, cfg, name, max_report=5, dfs=False, r
     return rejected
 
 
+def apalache_inductive(run):
+    """The three obligations of the inductive-invariant argument on spec/TFBInd.tla (symbolic, unbounded integers)."""
+    import shutil as _sh, subprocess as _sp
+    exe = _sh.which("apalache-mc")
+    if not exe:
+        raise ToolError("apalache-mc is not on PATH")
+    out = []
+    for name, args in (("Init => IndInv", ["--init=Init", "--inv=IndInv", "--length=0"]),
+                       ("IndInv /\\ Next => IndInv'", ["--init=IndInit", "--inv=IndInv", "--length=1"]),
+                       ("IndInv => Delivered", ["--init=IndInit", "--inv=Delivered", "--length=0"])):
+        t0 = time.time()
+        try:
+            p = _sp.run([exe, "check", "--cinit=ConstInit"] + args + ["--out-dir=" + os.path.join(run.wd, "apalache"), "TFBInd.tla"], cwd=SPEC,
+                        stdout=_sp.PIPE, stderr=_sp.STDOUT, text=True, timeout=1200)
+        except _sp.TimeoutExpired:
+            raise ToolError("apalache timed out on obligation %r" % name)
+        if "The outcome is: NoError" not in p.stdout:
+            if "The outcome is: Error" in p.stdout:
+                # the ABSTRACT model is wrong or the invariant is not inductive: a defect of the machinery, never of the code
+                raise ToolError("apalache refutes obligation %r of TFBInd.tla:\n%s" % (name, p.stdout[-1500:]))
+            raise ToolError("apalache failed on obligation %r:\n%s" % (name, p.stdout[-1500:]))
+        out.append({"obligation": name, "outcome": "NoError", "wall_s": round(time.time() - t0, 1)})
+    return out
+
+
 def main():
     run = Run("C12")
     t = "thorough" if run.thorough else "quick"
@@ -68,6 +93,13 @@ def main():
             timeout=1500, coverage=False)
     tlc_must_pass(r, "TempFileBuffer safety+liveness")
     run.add_tlc("verify_safety_liveness", r)
+    # 1b. unbounded companion: TFBInd.tla (lengths instead of byte sequences).  Apalache proves its inductive
+    #     invariant for ANY number and size of writes (Init => IndInv; IndInv /\ Next => IndInv'; IndInv => Delivered);
+    #     TLC checks that TempFileBuffer.tla (the specification that is trace-validated against the code) refines it.
+    r = tlc("MC_TFB_refine", "MC_TFB_refine.cfg", os.path.join(run.wd, "refine"), workers=4, timeout=900, collect_replays=False)
+    tlc_must_pass(r, "TempFileBuffer refines TFBInd (and satisfies its inductive invariant)")
+    run.add_tlc("refines_unbounded_abstraction", r)
+    run.cov["apalache_inductive_invariant"] = apalache_inductive(run)
     # 2. emission of all schedules
     r = tlc("MC_TFB", "MC_TFB_%s.cfg" % t, os.path.join(run.wd, "emit"), workers=8, timeout=1500, coverage=True)
     tlc_must_pass(r, "TempFileBuffer emission")
